@@ -320,6 +320,11 @@ pub fn run_one(run: u64, seed: u64) -> RunOut {
         if rng.chance(20) {
             c.receive_buffer = *rng.pick(&[16u32, 20, 33]);
         }
+        // the default chunk size with a tiny receive buffer
+        if rng.chance(8) {
+            c.chunk_size = 16384;
+            c.receive_buffer = *rng.pick(&[16u32, 64]);
+        }
     }
     let max_chunk = cfgs.iter().map(|c| c.chunk_size as usize).max().unwrap();
     for c in cfgs.iter_mut() {
